@@ -9,7 +9,7 @@ import re
 import shutil
 import subprocess
 
-from ckl.errors import CklRuntimeError
+from ckl.errors import CklRuntimeError, CklSyntaxError
 from ckl.parser import parse_script
 from ckl.date import to_oa_date, to_date
 from ckl.values import (
@@ -3624,7 +3624,14 @@ class FuncS(ValueFunc):
                         "Invalid format specification " + spec,
                         pos,
                     )
-            node = parse_script(variable, pos.filename)
+            try:
+                node = parse_script(variable, pos.filename)
+            except CklSyntaxError as e:
+                raise CklRuntimeError(
+                    ValueString("ERROR"),
+                    "Cannot evaluate {" + variable + "}: " + e.msg,
+                    pos,
+                )
             value = node.evaluate(environment).asString().value
             try:
                 if base != 10:
